@@ -344,6 +344,25 @@ impl Run {
     pub fn finish_ref(&self, mut coverage: Value, assumptions: &[&str]) -> ! {
         let wall = self.elapsed();
         let nviol = self.nviolations();
+        if let Some(path) = &self.replay {
+            // replay mode: the whole (deterministic) enumeration was re-run; report whether the
+            // recorded case fails again.  No evidence is written.
+            let key = std::fs::read_to_string(path)
+                .ok()
+                .and_then(|t| serde_json::from_str::<Value>(&t).ok())
+                .and_then(|v| v["key"].as_str().map(|s| s.to_string()));
+            match key {
+                Some(k) => {
+                    let hit = self.viol_keys.lock().unwrap().contains(&k);
+                    println!("REPLAY property={} key={} reproduced={}", self.id, k, hit);
+                    std::process::exit(if hit { 1 } else { 0 });
+                }
+                None => {
+                    eprintln!("cannot read a key from replay artefact {path}");
+                    std::process::exit(2);
+                }
+            }
+        }
         let kh = self.known_hit.lock().unwrap().clone();
         for (k, (n, what)) in &kh {
             println!("KNOWN-FINDING: property={} {} [{} case(s), key={}]", self.id, what, n, k);
